@@ -17,7 +17,9 @@ def build_unit(scratch, harness, defs=(), extra_models=('mpi_single.cpp',), repo
         if not os.path.exists(o):
             build.compile_ll(os.path.join(build.VERIF, 'model', m), o, scratch)
         mlls.append(o)
-    unit = build.link_unit(scratch, tag, repo_lls + [hll] + mlls, ['h_main'])
+    import re as _re
+    stubs = sorted(set(_re.findall(r'^define [^@]*@(stub_[A-Za-z0-9_]+)\(', open(hll).read(), _re.M)))
+    unit = build.link_unit(scratch, tag, repo_lls + [hll] + mlls, ['h_main'] + stubs)
     return unit
 
 
@@ -29,6 +31,7 @@ def main():
     ap.add_argument('--keep', action='store_true')
     ap.add_argument('--timeout', type=int, default=20000)
     ap.add_argument('--max-paths', type=int, default=200000)
+    ap.add_argument('--override', action='append', default=[])
     a = ap.parse_args()
     scratch = build.make_scratch('dev')
     try:
@@ -38,7 +41,8 @@ def main():
         mod = irfront.load_module(unit)
         t2 = time.time()
         fixed = dict(f.split('=') for f in a.fix)
-        E = irs.Engine(mod, dict(query_timeout_ms=a.timeout, fixed=fixed, max_paths=a.max_paths))
+        E = irs.Engine(mod, dict(query_timeout_ms=a.timeout, fixed=fixed, max_paths=a.max_paths, max_loop=20000,
+                                 overrides=dict(o.split('=') for o in a.override)))
         res = E.run('h_main')
         t3 = time.time()
         print('build %.1fs parse %.1fs run %.1fs  | unit %s' % (t1 - t0, t2 - t1, t3 - t2, unit))
